@@ -141,6 +141,7 @@ pub proof fn lemma_pivot_post(a0: Seq<Vec<F64>>, b0: Seq<F64>, c0: Seq<F64>, v0:
         forall|x: Seq<real>| x.len() == n && #[trigger] sat(a0, b0, x) ==> obj(c2, v2, x) == obj(c0, v0, x),
         forall|i: int| 0 <= i < m && i != t ==> rv(#[trigger] b2[i]) == rv(b0[i]) - (rv(a0[i][h]) / rv(a0[t][h])) * rv(b0[t]),
 {
+    reveal(rmul_s); reveal(rdiv_s);
     let p = rv(a0[t][h]);
     let rt = rvs(a0[t]@);
     assert forall|x: Seq<real>| x.len() == n implies (#[trigger] sat(a2, b2, x) <==> sat(a0, b0, x)) by {
